@@ -68,6 +68,8 @@ struct DaemonSim {
     hold_exit: bool,
     in_exit_window: bool,
     drain_begun_at: Option<std::time::Instant>,
+    loop_timers: Vec<u64>,
+    loop_reruns: Vec<(u64, &'static str, String)>,
     drained_at: Option<std::time::Instant>,
     dead_at: Option<std::time::Instant>,
 }
@@ -284,6 +286,19 @@ impl World {
         (g.daemons[d].drained_at, g.daemons[d].dead_at)
     }
 
+    /// What daemon `d` held for later when it last parked: (timers, sorted; queued re-runs as (time, kind, key)).
+    pub fn loop_state(&self, d: usize) -> (Vec<u64>, Vec<(u64, String, String)>) {
+        let g = self.lock();
+        (
+            g.daemons[d].loop_timers.clone(),
+            g.daemons[d]
+                .loop_reruns
+                .iter()
+                .map(|(t, k, key)| (*t, k.to_string(), key.clone()))
+                .collect(),
+        )
+    }
+
     /// Real-time instant just before daemon `d` began to drain its queue
     /// after Exit: a command queued before it is certainly taken out.
     pub fn exit_drain_begun(&self, d: usize) -> Option<std::time::Instant> {
@@ -432,6 +447,21 @@ pub(crate) enum Gate {
 }
 
 /// Blocks at the loop gate until the harness grants an iteration.
+/// Called by the run loop right before it parks: its timer heap and queued re-runs.
+pub(crate) fn publish_loop(mut timers: Vec<u64>, reruns: Vec<(u64, &'static str, String)>) {
+    if let Some(Binding {
+        world,
+        daemon: Some(d),
+        ..
+    }) = current()
+    {
+        timers.sort_unstable();
+        let mut g = world.lock();
+        g.daemons[d].loop_timers = timers;
+        g.daemons[d].loop_reruns = reruns;
+    }
+}
+
 pub(crate) fn gate_wait(timeout: Option<Duration>, pending_cmds: usize) -> Gate {
     let (w, d) = match current() {
         Some(Binding {
